@@ -1,5 +1,6 @@
 import Driver.Common
 import Model.Panel
+import Model.PanelCode
 open Lean Drv Panel
 
 def entryJson (e : Entry) : Json := jArr [jInt e.id, jNat e.first, jNat e.last]
@@ -36,6 +37,8 @@ def handle (j : Json) : Except String Json := do
     let s := sortIds ids
     pure (Json.mkObj [("ok", jBool (panelOk ids)), ("groups", jNat (countGroups ids)),
       ("individuals", jNat (countGroups s)), ("sorted", jInts s),
+      ("groups_code", jNat (countGroupsCode ids)), ("individuals_code", jNat (countGroupsCode s)),
+      ("ok_code", jBool (panelOkCode ids)),
       ("map", jArr ((panelMap s).map entryJson)), ("sample_size", jNat (sampleSize s))])
   | "values" =>
     -- formula outer(PanelLikelihoodTrajectory(P)) on a table given in its original order
@@ -82,6 +85,89 @@ def handle (j : Json) : Except String Json := do
     pure (Json.mkObj [("steps", jArr (steps.map fun (m, vals) =>
       Json.mkObj [("map", jArr (m.map entryJson)), ("ids", jInts (vals.map (·.1))),
         ("values", jFloats (vals.map (·.2)))]))])
+  | "multi" =>
+    -- comb(PLT(col₀), PLT(col₁), …) on a table given in its original order; comb = latent class with weight w
+    let ids ← intList (← j.getObjVal? "ids")
+    let cols ← floatMat (← j.getObjVal? "cols")          -- [column][row]
+    let w ← getFloat j "w"
+    if cols.any (fun c => c.length != ids.length) then throw "bad-op"
+    let n := cols.length
+    let rows : List (Int × Array Float) := ids.zipIdx.map fun (a, i) => (a, (cols.map fun c => c.getD i 0.0).toArray)
+    let gs : List (Array Float → Float) := (List.range n).map fun k => fun r => r.getD k 0.0
+    let comb ← match (← getStr j "comb") with
+      | "latent" => pure (latentClass w)
+      | _ => throw "bad-op"
+    let vals := tableValuesMulti comb gs #[] rows
+    pure (Json.mkObj [("ids", jInts (vals.map (·.1))), ("values", jFloats (vals.map (·.2)))])
+  | "mc_table" =>
+    -- outer(MonteCarlo(PanelLikelihoodTrajectory(integrand))) on a table given in its ORIGINAL order:
+    -- sorting, map and the assignment of the draw rows are all the model's
+    let ids ← intList (← j.getObjVal? "ids")
+    let p ← floatList (← j.getObjVal? "p")
+    let x ← floatList (← j.getObjVal? "x")
+    let b ← getFloat j "b"
+    let q ← getFloat j "q"
+    let K ← getNat j "K"
+    let R ← getNat j "R"
+    let outer ← outerFn (← getStr j "outer")
+    let dr ← (← getArr j "draws").toList.mapM floatMat       -- [row of the draw table][r][k]
+    let da := (dr.map fun m => (m.map List.toArray).toArray).toArray
+    let draws : Nat → Nat → Nat → Float := fun i r k => ((da.getD i #[]).getD r #[]).getD k 0.0
+    if R = 0 || p.length != ids.length || x.length != ids.length then throw "bad-op"
+    let rows : List (Int × (Float × Float)) := ids.zip (p.zip x)
+    let g : (Float × Float) → (Nat → Float) → Float := fun r xi =>
+      let base := r.1 * Float.exp (b * r.2 * xi 0)
+      if K ≥ 2 then base * (1.0 + q * xi 1) else base
+    let vals := tableValuesMC outer g (0.0, 0.0) draws R rows
+    pure (Json.mkObj [("ids", jInts (vals.map (·.1))), ("values", jFloats (vals.map (·.2)))])
+  | "bootstrap" =>
+    -- ids: sorted id column; samples: one list of picks per bootstrap sample; ops: public calls on one object
+    let ids ← intList (← j.getObjVal? "ids")
+    let samples ← (← getArr j "samples").toList.mapM natList
+    let m := panelMap ids
+    let ops ← (← getArr j "ops").toList.mapM fun o => do
+      match (← asStr o) with
+      | "likelihood" => pure SOp.likelihood
+      | "simulate" => pure SOp.simulate
+      | "estimate" => pure (SOp.estimate [])
+      | "estimate-bootstrap" => pure (SOp.estimate samples)
+      | _ => throw "bad-op"
+    let used := (Sess.init m).run ops
+    pure (Json.mkObj [("map", jArr (m.map entryJson)),
+      ("resampled", jArr (samples.map fun pk => jArr ((resample m pk).map entryJson))),
+      ("used", jArr (used.map fun mm => jArr (mm.map entryJson)))])
+  | "scores" =>
+    -- ids: sorted id column; x: per-row score of the single parameter; f g h b: unscaled output
+    let ids ← intList (← j.getObjVal? "ids")
+    let x ← floatList (← j.getObjVal? "x")
+    let xa := x.toArray
+    let m := panelMap ids
+    let xf : Nat → Float := fun i => xa.getD i 0.0
+    let f ← getFloat j "f"
+    let g ← floatList (← j.getObjVal? "g")
+    let h ← floatList (← j.getObjVal? "h")
+    let b ← floatList (← j.getObjVal? "b")
+    let so := scaledOutput ids f g h b
+    pure (Json.mkObj [("grad", fbits (gradPanel xf m)), ("bhhh", fbits (bhhhPanel xf m)),
+      ("sf", fbits so.1), ("sg", jFloats so.2.1), ("sh", jFloats so.2.2.1), ("sb", jFloats so.2.2.2)])
+  | "object" =>
+    -- one BIOGEME object created on `first`; tables assigned to database.data one after the other, one
+    -- evaluation of outer(PanelLikelihoodTrajectory(P)) on the SAME object after each (repaired behaviour)
+    let outer ← outerFn (← getStr j "outer")
+    let readTable (t : Json) : Except String (List (Int × Float)) := do
+      let ids ← intList (← t.getObjVal? "ids")
+      let p ← floatList (← t.getObjVal? "p")
+      if ids.length != p.length then throw "bad-op"
+      pure (ids.zip p)
+    let first ← readTable (← j.getObjVal? "first")
+    let tables ← (← getArr j "tables").toList.mapM readTable
+    let o : Obj Float := Obj.create ⟨first, []⟩
+    let steps := Obj.history outer (fun (x : Float) => x) 0.0 o tables
+    pure (Json.mkObj [("steps", jArr (steps.map fun r =>
+      match r with
+      | none => Json.mkObj [("refused", jBool true)]
+      | some vals => Json.mkObj [("refused", jBool false), ("ids", jInts (vals.map (·.1))),
+          ("values", jFloats (vals.map (·.2)))]))])
   | "scaled" =>
     -- quantities returned with scaled=True for a sorted id column
     let ids ← intList (← j.getObjVal? "ids")
